@@ -310,6 +310,9 @@ FIXED = [
     {"pre": {"ls_pending": True, "cbf_buffered": False}, "actors": [["timer", "timer", "timer"], ["guc_pending"]]},
     {"pre": {"ls_pending": False, "cbf_buffered": False}, "actors": [["guc_pending"], ["guc_pending", "rx_lsrep"]]},
     {"pre": {"ls_pending": False, "cbf_buffered": False, "sn_near_wrap": True}, "actors": [["gbc", "gbc"], ["gbc"]]},
+    # an originator scanning the neighbours while a reception / a lookup adds a station to the location table
+    {"pre": {"ls_pending": False, "cbf_buffered": False}, "actors": [["gbc"], ["rx_beacon"]]},
+    {"pre": {"ls_pending": False, "cbf_buffered": False}, "actors": [["guc_known"], ["guc_pending"]]},
 ]
 
 
@@ -345,7 +348,7 @@ def jobs(tier, seed):
     if tier == "quick":
         for s in range(10):
             js.append({"fn": "vf.props.c15:job_random", "args": {"n": 220, "seed": seed * 1000 + s}})
-        for sc in (0, 1, 2, 12, 13, 14):
+        for sc in (0, 1, 2, 12, 13, 14, 15, 16):
             for sh in range(2):
                 js.append({"fn": "vf.props.c15:job_systematic", "args": {"scenario_i": sc, "shard": sh, "nshards": 2}})
     else:
